@@ -5,6 +5,7 @@ CONSTANTS NCells = 12
  Tails = {0}
  Subs = {0}
  Engines = {"iee"}
+ Wraps = {}
 SPECIFICATION Spec
 INVARIANT WalkIeeInclusiveEnd
 CHECK_DEADLOCK FALSE
